@@ -107,19 +107,19 @@ CHECKS = {
     },
     'C09': {
         'technique': 'complete enumeration of graph sequences x serialisations x terminators x containers on the real dump/load family',
-        'text': 'Every sequence of 0-3 (thorough 0-4) graphs from a 7-graph corpus (multi-key metadata lines, empty values, values and string constants holding ; ( ) " # U+2028 U+0085 FF VT U+001C) is serialised by the real dumps, dump (stream and real file) and by manual joins with blank line / newline / space, under indent -1 / None / 0, rewritten with LF, CRLF and CR terminators, and loaded back through six containers (str, lines, lines with terminators, text stream, file name, open file) by loads/load/iterdecode and iterparse; all must yield the original sequence (triples, top, marker lists, metadata) and the original trees.',
+        'text': 'Every sequence of 0-3 (thorough 0-4) graphs from an 8-graph corpus (multi-key metadata lines, two graphs sharing their first metadata line, a value ending in #, empty values, values and string constants holding ; ( ) " # U+2028 U+0085 FF VT U+001C) is serialised by the real dumps, dump (stream and real file, over stale content, list and iterator arguments) and by manual joins with blank line / newline / space / nothing, under indent -1 / None / 0, rewritten with LF, CRLF and CR terminators, and loaded back through six containers (str, lines, lines with terminators, text stream, file name, open file) by loads/load/iterdecode and iterparse; all must yield the original sequence (triples, top, marker lists, metadata) and the original trees; the expectation for every corpus graph comes from the reference lexer, grammar and interpretation, not from penman.',
         'note': 'Trusted: nothing beyond equality; the corpus is fixed, the framing product is complete; text streams use universal newlines as text-mode files do.',
         'design_ref': 'DESIGN.md section 4 C09',
     },
     'C17': {
         'technique': 'exhaustive exploration of call histories, stream interleavings, process pairs and hash-seed permutations on the real library (owned environment)',
-        'text': 'A battery of 39 public calls x 14 arguments is explored: (purity) order-preserving deep snapshots of all arguments before and after every call, and again after every documented in-place operation has been applied to the result; (history) every ordered pair - and triples - of calls, on shared argument objects, must end in the result the last call gives in a fresh interpreter; (streams) every interleaving of next() over 2-3 lazy iterdecode/iterparse generators; (processes) every producer/consumer placement in {parent, fork worker, spawn worker}^2 for three pipelines with graphs travelling by pickle; (hash seeds) the whole battery plus six command-line runs in sub-processes under PYTHONHASHSEED 0..63 (512), byte-identical, with the witnessed iteration orders of 3-element probe sets reported.',
+        'text': 'A battery of 51 public calls x 16 arguments is explored: (purity) order-preserving deep snapshots of all arguments before and after every call, and again after every documented in-place operation has been applied to the result; (history) every ordered pair - and triples - of calls, on shared argument objects, must end in the result the last call gives on its own in a forked child of a fresh interpreter (and the whole battery run forward and in reverse order must agree with that); (streams) every interleaving of next() over 2-3 lazy iterdecode/iterparse generators; (processes) every producer/consumer placement in {parent, fork worker, spawn worker}^2 for three pipelines with graphs travelling by pickle; (hash seeds) the whole battery plus six command-line runs in sub-processes under PYTHONHASHSEED 0..63 (512), byte-identical, with the witnessed iteration orders of 3-element probe sets reported.',
         'note': 'Trusted: the canonical rendering in pmc/props/c17_battery.py; the corpus and battery are fixed; "all hash seeds" is approximated by all permutations of 3-element probe sets.',
         'design_ref': 'DESIGN.md section 4 C17',
     },
     'C20': {
         'technique': 'complete enumeration of the option space x models x streams on the real command (in-process main, sub-process conformance) against the library pipeline',
-        'text': 'All 2304 normalisation option sets (every subset of the five flags x every rearrange key incl. combined and random x every reconfigure key x variable formats) x 4 models (default, --amr, --noop, --model file) x 6 input streams (metadata, alignments, inverted and over-inverted roles, reifiable and reified relations, several graphs, irregular spacing) with the formatting option rotating (thorough: all 9), every formatting option x every flag subset, and stdin / 1-3 files are run through the real main(); stdout must be exactly the documented library pipeline composed from public calls, one graph out per graph in; option sets without --reconfigure/--indicate-branches/random keys must reproduce their own output byte for byte; without normalisation options well-formed input must decode to the same graphs. random.random is scripted identically on both sides; 36 runs are replayed in a real sub-process.',
+        'text': 'All 2304 normalisation option sets (every subset of the five flags x every rearrange key incl. combined and random x every reconfigure key x variable formats) x 5 models (default, --amr, --noop, two --model files, one with its own top role) x 6 input streams (metadata, alignments, inverted and over-inverted roles, reifiable and reified relations, several graphs, irregular spacing) with the formatting option rotating (thorough: all 9), every formatting option x every flag subset, and stdin / 1-3 files are run through the real main(); stdout must be exactly the documented library pipeline composed from public calls, one graph out per graph in; option sets without --reconfigure/--indicate-branches/random keys must reproduce their own output byte for byte; without normalisation options well-formed input must decode to the same graphs. random.random is scripted identically on both sides; 36 runs are replayed in a real sub-process.',
         'note': 'Trusted: the library itself (pinned by C01-C19) and the in-process harness (validated against sub-processes); --check is covered by C16; the number of blank lines between graphs of different files is not asserted.',
         'design_ref': 'DESIGN.md section 4 C20',
     },
